@@ -83,7 +83,7 @@ def gen_cases(ctx, tier):
               {"fn": "join", "l1": NULL, "l2": NULL, "sep": None, "bra": None},
               {"fn": "index", "l": mp([(s("a"), num("1"))]), "x": lst([s("a", "double"), num("1.0", shown="1")])},
               {"fn": "index", "l": lst([num("1"), num("1.0", shown="1")]), "x": num("1.0", shown="1")}]
-    nl = 60 if tier == "quick" else 500
+    nl = 45 if tier == "quick" else 500
     for _ in range(nl):
         l = rand_list(rng)
         n = length_of(l)
@@ -92,7 +92,7 @@ def gen_cases(ctx, tier):
         for i in rng.sample(range(-n - 2, n + 3), min(4, 2 * n + 5)):
             cases.append({"fn": "set_nth", "l": l, "n": i, "x": rng.choice(ITEMS)})
         cases.append({"fn": "nth", "l": l, "n": rng.choice([2 ** 31, -2 ** 31, 2 ** 53 + 1, -2 ** 63, 2 ** 63, 10 ** 19, 2 ** 32 + 1])})
-    nr = 120 if tier == "quick" else 1200
+    nr = 90 if tier == "quick" else 1200
     for _ in range(nr):
         cases.append({"fn": rng.choice(["length", "separator", "is_bracketed"]), "l": rand_list(rng)})
         cases.append({"fn": "append", "l": rand_list(rng), "x": rng.choice(ITEMS), "sep": rng.choice(SEPV)})
